@@ -412,7 +412,7 @@ def check_classifiers(fx, rep, rule):
                 s3 = call("core::str::split_once", fs, ("lit", "char", ":"))
                 if not o(("is", s3, "Some")):
                     return NONE
-                ln = call("core::str::parse", mk_field(mk_payload(s3, "Some", "0"), "1"))
+                ln = call("core::str::parse::<usize>", mk_field(mk_payload(s3, "Some", "0"), "1"))
                 if not o(("is", ln, "Ok")):
                     return NONE
                 return some(("adt", "StackFrame", "StackFrame", (("class", mk_field(mk_payload(s2, "Some", "0"), "0")), ("method", mk_field(mk_payload(s2, "Some", "0"), "1")),
